@@ -213,7 +213,7 @@ CHECKS = {
         assumptions=[],
     ),
     "C18": dict(
-        packs=["c18"], level="other",
+        packs=["c18", "c05"], level="other",
         explanation="R18.1 the circle and ellipse hit tests use the centre offset only through even functions (x*x + y*y, pow(2)): mirror symmetry about both centre lines for all inputs; R18.2/R18.4 under width == height the ellipse threshold is the circle's diameter_to_threshold and the test is x^2 + y^2 < threshold, a = width^2, b = height^2, both doubled-centre formulas are top_left*2 + (size-1); "
                     "R18.3 in the float and the fixed_point build PlaneSector::new selects EntirePlane exactly under |sweep| >= ANGLE_360DEG (= 2*pi), which accepts every point; R05.2 the corner-quadrant tables of rounded rectangles. R18.5 complete decision tables of Operation::execute (and / or / true), PlaneSector::contains (left half plane on its Left side, right on its Right side, combined by the operation for all three operations x four outcomes) and point_type (None / Stroke / Fill). R18.6 axis consistency of corner radii, quadrants and centres. R18.7 CornerRadii::confine measures the overlap along each of the four sides with the two corners of that side and scales all corners by extent / radii sum of one side.",
         claim="Decides the symmetry, circle-equals-ellipse, full-sweep, plane-sector combination and corner-table clauses structurally; half-pixel accuracy, contiguity, bounding-box contact and angular tolerances are numeric and not decided.",
@@ -264,6 +264,7 @@ DEPENDS = {
     "C10": "Also runs O0 of C12 (raw values are masked by construction: set_pixel ORs them in unmasked), the ImageRaw rules of C09 (as_image() / pixel() read through ImageRaw) and the raw load / iteration rules of C11, and the trait-default rules of C03 (Framebuffer relies on the default fill methods).",
     "C11": "Also runs O0 of C12 (raw values are masked by construction).",
     "C12": "Also runs the raw load / store rules of C11 and the framebuffer rules of C10 (into_storage / to_bytes and the raw types are what they store).",
+    "C18": "Also runs the membership rules of C05 (the curved shapes are drawn from their row searches: a search that ends at the first empty row loses the rest of a narrow ellipse).",
     "C19": "Also runs the Transform rules of C07 (a polyline is drawn at vertices + translate: translate and translate_mut must accumulate the offset) and R01.7 (no renderer asks the target for its size).",
     "C20": "Also runs the adapter / trait-default rules of C03 (MockDisplay inherits the default fill_contiguous / fill_solid / clear: every pixel of a fill must reach draw_iter for the out-of-bounds and overdraw checks to see it).",
     "C14": "Also runs the adapter / trait-default rules of C03 (glyphs reach the target through fill_contiguous / fill_solid of the font draw targets and the defaults) and the image wiring R01.5 (every glyph is drawn as an Image of a sub image).",
